@@ -1397,6 +1397,7 @@ for _ht in (False, True):
     anchor("G_numeric", f"laplacian_rev_{_s}")(_op_anchor(f"laplacian_rev_{_s}", "_laplacian_rev", _ht))
     anchor("G_numeric", f"div_rev_{_s}")(_op_anchor(f"div_rev_{_s}", "_div_rev", _ht))
     anchor("G_numeric", f"veclap_{_s}")(_op_anchor(f"veclap_{_s}", "_vectorial_laplacian", _ht, n_out=2, kw={"u_vec_ndim": 2}))
+    anchor("G_numeric", f"veclap_default_{_s}")(_op_anchor(f"veclap_default_{_s}", "_vectorial_laplacian", _ht, n_out=2, dim=2))
     anchor("G_numeric", f"advection_{_s}")(_op_anchor(f"advection_{_s}", "_u_dot_nabla_times_u_rev", _ht, n_out=2, dim=2))
 
 
